@@ -193,13 +193,25 @@ def tv_events(rng, tier):
                 eB = (len(x) // rows) if none_mode else B
                 e = {"tid": tid, "x": x, "y": y, "xi": xi, "yi": yi, "B": eB}
                 if op == "update":
-                    ber.update(X, Y)
-                    bler.update(X, Y)
+                    try:
+                        ber.update(X, Y)
+                        bler.update(X, Y)
+                    except Exception as exc:
+                        # a valid batch the metric refuses: a verdict (the Update event carries impossible counters and is rejected), not a harness failure
+                        e.update({"ev": "Update", "c_tb": -1, "c_eb": -1, "c_tbl": -1, "c_ebl": -1, "form": "update raised %s" % repr(exc)[:160]})
+                        evs.append(e)
+                        break
                     c = counters(ber, bler)
                     e.update({"ev": "Update", "c_tb": c[0], "c_eb": c[1], "c_tbl": c[2], "c_ebl": c[3]})
                 else:
-                    b1, b2 = ber(X, Y), bler(X, Y)
-                    b1s, b2s = ber(Y, X), bler(Y, X)
+                    try:
+                        b1, b2 = ber(X, Y), bler(X, Y)
+                        b1s, b2s = ber(Y, X), bler(Y, X)
+                    except Exception as exc:
+                        e.update({"ev": "Forward", "ber5": -1, "bler5": -1, "ber5s": -1, "bler5s": -1, "c_tb": -1, "c_eb": -1, "c_tbl": -1, "c_ebl": -1,
+                                  "sum5": -1, "none": [-1], "form": "forward raised %s" % repr(exc)[:160]})
+                        evs.append(e)
+                        break
                     c = counters(ber, bler)
                     e.update({"ev": "Forward", "ber5": v5(b1), "bler5": v5(b2), "ber5s": v5(b1s), "bler5s": v5(b2s),
                               "c_tb": c[0], "c_eb": c[1], "c_tbl": c[2], "c_ebl": c[3], "sum5": -1, "none": [-1]})
